@@ -1,5 +1,5 @@
 """C03 — scheduler family (shared stream in sched.py) + a real-process stream for the command line of retried steps"""
-import json, subprocess
+import json, os, subprocess
 import common, sched
 
 PROP = "C03"
@@ -74,6 +74,10 @@ def retry_budget_stream(chk):
                     if orig["limit"] > 0:
                         nd["fails"] = rng.choice([1, orig["limit"], orig["limit"] + 1, -1])
                 cases.append(rc)
+    cdir = os.path.join(common.ROOT, "corpus", "retry")
+    if os.path.isdir(cdir):
+        for f in sorted(os.listdir(cdir)):
+            cc = json.load(open(os.path.join(cdir, f))); cc["id"] = "corpus-" + f[:-5]; cases.insert(0, cc)
     res = sched.run_harness(binp, cases)
     n = 0
     for c in cases:
@@ -83,6 +87,9 @@ def retry_budget_stream(chk):
         n += 1; chk.evaluations += 1
         for m in r.get("monitor") or []:
             if m.startswith("C10:reexecuted-step-"):
+                chk.violation("C03:retry-run:" + m.split(":")[1], m, {"case": dict(c, ops=r["ops"]), "verdict": m, "st0": r.get("st0"), "rc0": r.get("rc0")})
+            elif m.startswith("C10:unfinished-step-not-reexecuted") or m.startswith("C10:kept-step-executed"):
+                # "executed exactly once if the step is runnable and never otherwise", in the retry run
                 chk.violation("C03:retry-run:" + m.split(":")[1], m, {"case": dict(c, ops=r["ops"]), "verdict": m, "st0": r.get("st0"), "rc0": r.get("rc0")})
     chk.stats["retry_runs"] = n
 
